@@ -3,7 +3,8 @@
 Technique: bounded-exhaustive exploration (E-enum): ALL tables of <= L rows over a row alphabet
 (r in 3 ints whose numeric and textual orders differ: 2, 10, 3) x (k in 3 strs) x (v in NULL/ints) [dense and sparse key combinations], x ALL layouts:
 every permutation of the targets [r, k, agg1] and [r, k, agg1, agg2], PIVOT BY given by names or by
-1-based positions, in either pivot order (r,k) / (k,r)  -- 120 layouts.
+1-based positions, in either pivot order (r,k) / (k,r), plus ORDER BY clauses on the first / second pivot
+column and on an aggregate (the pivoted rows must be ascending by the first column regardless).
 
 Oracle (from the property text; the un-pivoted query result comes from the reference interpreter
 vt.ref.select, not from beanquery):
@@ -58,15 +59,28 @@ def layouts():
             names = [p[0] for p in perm]
             for first, second in (('r', 'k'), ('k', 'r')):
                 for byname in (True, False):
-                    out.append((perm, names, first, second, byname))
+                    out.append((perm, names, first, second, byname, None))
+        # the pivoted rows are ascending by the first pivot column whatever ORDER BY the query carries
+        perm = tuple(base)
+        names = [p[0] for p in perm]
+        for first, second in (('r', 'k'), ('k', 'r')):
+            for order in ('first-desc', 'second-then-first', 'agg-desc-then-first-desc'):
+                out.append((perm, names, first, second, True, order))
     return out
 
 
-def build(perm, names, first, second, byname, pivot=True):
+def build(perm, names, first, second, byname, order=None, pivot=True):
     targets = [(e, nm) for nm, e, _ in perm]
     pv = [col(first), col(second)] if byname else [names.index(first) + 1, names.index(second) + 1]
     gb = A.GroupBy([col('r'), col('k')], None)
-    return select(targets, from_='t', group_by=gb, pivot_by=A.PivotBy(pv) if pivot else None)
+    ob = None
+    if order == 'first-desc':
+        ob = [A.OrderBy(col(first), A.Ordering.DESC)]
+    elif order == 'second-then-first':
+        ob = [A.OrderBy(col(second), A.Ordering.ASC), A.OrderBy(col(first), A.Ordering.ASC)]
+    elif order == 'agg-desc-then-first-desc':
+        ob = [A.OrderBy(col(names[-1]), A.Ordering.DESC), A.OrderBy(col(first), A.Ordering.DESC)]
+    return select(targets, from_='t', group_by=gb, order_by=ob, pivot_by=A.PivotBy(pv) if pivot else None)
 
 
 def expected(perm, names, first, second, un):
@@ -103,7 +117,7 @@ def unpivot(rows, keys, others, nfirst_second, ncols):
 
 
 def check_one(conn, rows, lay, acc, li):
-    perm, names, first, second, byname = lay
+    perm, names, first, second, byname, order = lay
     q0 = build(*lay, pivot=False)
     q1 = build(*lay)
     _, un, _ = refselect.execute(q0, [c for c, _ in COLS], rows, dict(COLS))
@@ -117,7 +131,7 @@ def check_one(conn, rows, lay, acc, li):
     except Exception as e:
         acc.violation(f'crash:{crash_fingerprint(e)}', f'{show(q1)} on {rows!r} raised {type(e).__name__}: {e}', case)
         return
-    tag = f'{"name" if byname else "pos"}|{first}{second}|rem={len(others)}'
+    tag = f'{"name" if byname else "pos"}|{first}{second}|rem={len(others)}' + (f'|order-by:{order}' if order else '')
     gnames = [d.name for d in desc]
     gtypes = [d.datatype for d in desc]
     if gnames != expnames:
